@@ -320,6 +320,10 @@ type c14WfIn struct {
 	defText       string
 }
 
+// c14YAMLNumberRe: integers and floats of the YAML 1.2 core schema (decimal, 0o, 0x, fractions,
+// exponents, .inf, .nan).
+var c14YAMLNumberRe = regexp.MustCompile(`^([-+]?[0-9]+|0o[0-7]+|0x[0-9a-fA-F]+|[-+]?(\.[0-9]+|[0-9]+(\.[0-9]*)?)([eE][-+]?[0-9]+)?|[-+]?\.(inf|Inf|INF)|\.(nan|NaN|NAN))$`)
+
 func c14Assignable(typ, value string) bool {
 	// value type by the documented rule: literal null / bool / number / string, or expression type
 	vt := "string"
@@ -338,6 +342,11 @@ func c14Assignable(typ, value string) bool {
 		vt = "null"
 	case "pre ${{ 1 }} post":
 		vt = "string"
+	default:
+		// other plain scalars: a number iff the YAML core schema reads them as one
+		if c14YAMLNumberRe.MatchString(value) {
+			vt = "number"
+		}
 	}
 	if vt == "any" {
 		return true
@@ -677,7 +686,11 @@ func c14Workflows(t *testing.T, r *vReport, idx *int64, root string) {
 		}
 	}
 	// typed values
-	values := []string{"abc", "42", "true", "null", "${{ 1 }}", "${{ 'a' }}", "${{ true }}", "${{ github.sha }}", "${{ fromJSON('1') }}", "${{ null }}", "pre ${{ 1 }} post", "${{ github.event.x }}"}
+	values := []string{"abc", "42", "true", "null", "${{ 1 }}", "${{ 'a' }}", "${{ true }}", "${{ github.sha }}", "${{ fromJSON('1') }}", "${{ null }}", "pre ${{ 1 }} post", "${{ github.event.x }}",
+		// plain scalars that look like numbers to one reader or another (left out as implementation-
+		// defined: 0b11 and 1_000, which the YAML library still reads the YAML 1.1 way, and 1e400,
+		// whose value is out of range)
+		"nan", "inf", "Infinity", "-inf", "NaN", ".inf", "-.INF", ".nan", ".NaN", "0x10", "0o17", "1e3", "-1.5", "1.", ".5", "+7", "1e", "0x", "12abc", "1 2"}
 	for _, ty := range []string{"string", "number", "boolean"} {
 		for _, v := range values {
 			*idx++
